@@ -45,6 +45,9 @@ TEMPLATES = [
     # (not drawn by gen_formula; motif programs only) a value that depends on the NAME of the cells' space and of
     # its ancestors (the model's name left out): renaming a space changes what the formula returns
     "def {n}(x): return sum(map(ord, _space.fullname.split('.', 1)[1])) * 10 + x + {k}",
+    # (not drawn by gen_formula; motif programs only) the same for the name of ANOTHER space, read through the
+    # object-valued reference `{c}` to it: no cells of the renamed space lies between the reader and the name
+    "def {n}(x): return sum(map(ord, {c}.fullname.split('.', 1)[1])) * 10 + x + {k}",
 ]
 N_GEN_TEMPLATES = 16
 N_BASE_TEMPLATES = 11
